@@ -210,10 +210,9 @@ code with proposed-fixes/C10-trie2-rangeproof-*.diff.  The general case (two edg
 `unsetInternal`, re-insertion) and the legacy trie's range proofs are not modelled: `range_complete`
 and `range_sound` of the plan are NOT proved; what follows is the partial result. -/
 
-/-- PARTIAL (repaired variant, single element; missing: the `more` flag is not characterised, the
-multi-element case, the legacy trie): if `VerifyRangeProof(root, k, [k], [v], P)` succeeds for any
-node set P then every trie with that root holds `v` at `k`. -/
-theorem range_single_sound_partial (A : HashAlg H) (hI : Ideal A) (rc : RCfg)
+/-- Repaired variant, single element, value: if `VerifyRangeProof(root, k, [k], [v], P)` succeeds for
+ANY node set P then every trie with that root (empty or not) holds `v` at `k`. -/
+theorem range_single_sound (A : HashAlg H) (hI : Ideal A) (rc : RCfg)
     (hch : rc.checkHash = true) (hev : rc.earlyValue = false) (hlh : rc.leafHash = true)
     (n : Nat) (hn : 0 < n) (r : H) (k : Path) (hk : k.length = n) (v : H) (P : PSet H) (more : Bool)
     (h : verifySingle A rc r k v P = RRes.ok more) :
@@ -222,19 +221,40 @@ theorem range_single_sound_partial (A : HashAlg H) (hI : Ideal A) (rc : RCfg)
   subst hr
   exact single_sound hI rc hch hev hlh t n hwf hn k hk v P more h
 
-/-- PARTIAL (repaired variant, empty range; missing: that no key right of `first` is present): if
-`VerifyRangeProof(root, first, nil, nil, P)` succeeds then `first` itself is absent. -/
-theorem range_empty_sound_partial (A : HashAlg H) (hI : Ideal A) (rc : RCfg)
+/-- …and the returned `more` flag is exact: it is true iff the trie has a key greater than `k`
+(`GtIn t n k` = some key of length n present in `t` is lexicographically greater). `NZ`: no leaf of
+the trie holds zero (tries never store zero). This is what `VerifyRangeProof` guarantees about
+`hasMore` in the single-element case. -/
+theorem range_single_more (A : HashAlg H) (hI : Ideal A) (rc : RCfg)
     (hch : rc.checkHash = true) (hev : rc.earlyValue = false) (hlh : rc.leafHash = true)
-    (t : Tree H) (n : Nat) (hwf : WF t n) (hn : 0 < n) (first : Path) (hk : first.length = n)
-    (P : PSet H) (more : Bool) (h : verifyEmpty A rc (t.hash A) first P = RRes.ok more) :
-    t.get A first = A.zero :=
-  empty_sound hI rc hch hev hlh t n hwf hn first hk P more h
+    (t : Tree H) (n : Nat) (hwf : WF t n) (hnz : t.NZ A) (hn : 0 < n) (k : Path) (hk : k.length = n)
+    (v : H) (P : PSet H) (more : Bool) (h : verifySingle A rc (t.hash A) k v P = RRes.ok more) :
+    (more = true ↔ GtIn t n k) :=
+  single_more hI rc hch hev hlh t n hwf hnz hn k hk v P more h
 
-/-- PARTIAL completeness (single element, any variant, either prover's node set): the range proof
-`GetRangeProof(k, k)` of a key that is in the trie is accepted for the key's value. Missing: the
-value of `more`, the other cases. -/
-theorem range_single_complete_partial (A : HashAlg H) (rc : RCfg) (t : Tree H) (n : Nat) (hwf : WF t n)
+/-- Repaired variant, empty range, FULL: if `VerifyRangeProof(root, first, nil, nil, P)` succeeds for
+any node set P then the flag is `false` and every key of every (non-empty) trie with that root is
+smaller than `first` — the trie has no entry at or right of `first`. -/
+theorem range_empty_sound (A : HashAlg H) (hI : Ideal A) (rc : RCfg)
+    (hch : rc.checkHash = true) (hev : rc.earlyValue = false) (hlh : rc.leafHash = true)
+    (t : Tree H) (n : Nat) (hwf : WF t n) (hnz : t.NZ A) (hn : 0 < n) (first : Path)
+    (hk : first.length = n) (P : PSet H) (more : Bool)
+    (h : verifyEmpty A rc (t.hash A) first P = RRes.ok more) :
+    more = false ∧ ∀ k', k'.length = n → t.has k' = true → pathLt k' first = true :=
+  empty_no_key hI rc hch hev hlh t n hwf hnz hn first hk P more h
+
+/-- The empty trie (root zero): the repaired variant accepts the empty-range claim for every `first`
+and every node set; the code as it is rejects the honest (empty) proof — DEFECT, known finding
+`*:range:honest-empty-range-of-empty-trie:rejected`. -/
+theorem range_empty_trie (A : HashAlg H) (first : Path) (P : PSet H) :
+    verifyEmpty A RCfg.strict A.zero first P = RRes.ok false ∧
+    verifyEmpty A RCfg.asIs A.zero first [] = RRes.err := by
+  simp [verifyEmpty, RCfg.strict, RCfg.asIs, verifyFuel, resolveAux, PSet.get]
+
+/-- Completeness, single element (any variant, either prover's node set): the range proof
+`GetRangeProof(k, k)` of a key that is in the trie is accepted for the key's value (and by
+`range_single_more` the flag it returns is the true one). -/
+theorem range_single_complete (A : HashAlg H) (rc : RCfg) (t : Tree H) (n : Nat) (hwf : WF t n)
     (hn : 0 < n) (h256 : n < 256) (k : Path) (hk : k.length = n) (hhas : t.has k = true)
     (hv : t.get A k ≠ A.zero) (legacy cached : Bool) (P : PSet H)
     (hlook : ∀ nd ∈ t.proveNodes A legacy cached k, P.get (nd.hash A) = some nd) :
